@@ -102,6 +102,11 @@ class Runner:
             self.nontrivial_signatures.add(s)
         if res.get("sample") is not None and len(self.samples) < 6:
             self.samples.append(res["sample"])
+        w = res.get("wall_s")
+        if w is not None:
+            self.stats["max_world_wall_s"] = max(self.stats.get("max_world_wall_s", 0.0), w)
+            if w > 60 and len(self.notes) < 10:
+                self.notes.append(f"slow world {w}s exits={res.get('exits')} sample={str(res.get('sample'))[:400]}")
         if res.get("harness_error"):
             raise Harness(json.dumps(res["harness_error"])[:4000])
         for a in res.get("aborted", []):
@@ -199,6 +204,7 @@ class Runner:
                 "user model (zoo)", "plotting / tqdm / logging off",
             ],
             "notes": self.notes,
+            "stats": self.stats,
             "workers": self.jobs,
         }
         if exhaustive is not None:
